@@ -1,4 +1,5 @@
 import Verif.Proofs.Xml
+import Verif.Proofs.XmlBoundary
 /-!
 # C06 — XML minification preserves the infoset up to insignificant white space
 
@@ -18,6 +19,7 @@ open Verif.Spec.Xml
 open Verif.Model.Xml
 open Verif.Gen
 open Verif.Proofs.Xml
+open Verif.Proofs.XmlBoundary
 
 /-! ## the regenerated tables of `/repo/xml/table.go` -/
 
@@ -185,6 +187,154 @@ theorem xml_wellformed (o : XmlOpts) (ts : List XTok) (hwf : ∀ x ∈ ts, WfTok
 
 example : rawCdEnd [XTok.text [']', ']'], XTok.comment [], XTok.text ['>']] = true ∧
     rawCdEnd (emit ⟨false⟩ true [XTok.text [']', ']'], XTok.comment [], XTok.text ['>']]) = false := by decide
+
+/-! ## token boundaries: the look-ahead over any number of skipped tokens, the `]` count over any split -/
+
+/-- **trailing_space_lookahead** (full): the decision of the text branch about the trailing white space of a text
+does not depend on the tokens the look-ahead passes over (comments, DOCTYPE, the tokens of processing
+instructions — `skipped`), however many there are: it is the decision for the stream without them, and it is
+`trimAt` of the first token that is not passed over (`nextStop`): end of input, character data beginning with
+white space, or an element tag unless white space is kept. -/
+theorem trailing_space_lookahead (o : XmlOpts) (sk rest : List XTok) (h : sk.all skipped = true) :
+    peekTrim o (sk ++ rest) = peekTrim o rest ∧
+    peekTrim o (sk ++ rest) = trimAt o.keepWhitespace (nextStop rest) := by
+  rw [peekTrim_eq, peekTrim_eq, nextStop_skip sk rest h]
+  exact ⟨rfl, rfl⟩
+
+/-- **trailing_space_exact** (full): the data written for a text token, for every state `omitSpace`, every data
+and every following stream `sk ++ rest` with `sk` passed over: the rewritten, left-trimmed data `leftTrimmed`;
+its last byte is removed exactly when it is white space and `trimAt` holds at the first token of `rest` that is
+not passed over.  Nothing else is ever removed. -/
+theorem trailing_space_exact (o : XmlOpts) (om : Bool) (d : List Char) (sk rest : List XTok)
+    (h : sk.all skipped = true) :
+    textStep o om d (sk ++ rest) =
+      if (leftTrimmed om d).isEmpty then ([], true)
+      else if endsWs (leftTrimmed om d) then
+        if trimAt o.keepWhitespace (nextStop rest) then ((leftTrimmed om d).dropLast, false)
+        else (leftTrimmed om d, true)
+      else (leftTrimmed om d, false) := by
+  rw [textStep_eq, nextStop_skip sk rest h]
+
+/-- **trailing_space_only_if** (full): when the written data differs from the left-trimmed data, then the
+left-trimmed data ends in white space, exactly that byte is missing, and the look-ahead stopped at the end of the
+input, at character data that begins with white space, or at an element tag with `keepWhitespace = false`. -/
+theorem trailing_space_only_if (o : XmlOpts) (om : Bool) (d : List Char) (ts : List XTok)
+    (hne : (textStep o om d ts).1 ≠ leftTrimmed om d) :
+    endsWs (leftTrimmed om d) = true ∧ (textStep o om d ts).1 = (leftTrimmed om d).dropLast ∧
+    (nextStop ts = none ∨ (∃ e, nextStop ts = some (.text e) ∧ startsWs e = true) ∨
+      (∃ c t, nextStop ts = some (.cdata c t) ∧ startsWs t = true) ∨
+      (o.keepWhitespace = false ∧ ((∃ n, nextStop ts = some (.startTag n)) ∨ ∃ e n, nextStop ts = some (.endTag e n)))) := by
+  rw [textStep_eq] at hne ⊢
+  by_cases h1 : (leftTrimmed om d).isEmpty = true
+  · have : leftTrimmed om d = [] := by simpa using h1
+    simp [this] at hne
+  · simp only [h1, Bool.false_eq_true, if_false] at hne ⊢
+    by_cases h2 : endsWs (leftTrimmed om d) = true
+    · simp only [h2, if_true] at hne ⊢
+      by_cases h3 : trimAt o.keepWhitespace (nextStop ts) = true
+      · simp only [h3, if_true, true_and]
+        have hs := nextStop_not_skipped ts
+        cases hn : nextStop ts with
+        | none => exact Or.inl rfl
+        | some t =>
+          rw [hn] at h3
+          have hsk := hs t hn
+          cases t with
+          | cdata c t' =>
+            refine Or.inr (Or.inr (Or.inl ⟨c, t', rfl, ?_⟩))
+            simpa [trimAt] using h3
+          | _ => simp_all [trimAt, skipped]
+      · simp [h3] at hne
+    · simp [h2] at hne
+
+/-- **trailing_space_kept** (full): in front of character data that begins with a non-space, and with
+`keepWhitespace` in front of an element tag, the text is written with its trailing white space — for any number
+of skipped tokens in between (this is the part of `xml_infoset` that a bounded look-ahead violates). -/
+theorem trailing_space_kept (o : XmlOpts) (om : Bool) (d : List Char) (sk rest : List XTok) (t : XTok)
+    (h : sk.all skipped = true) (hs : skipped t = false) (ht : trimAt o.keepWhitespace (some t) = false) :
+    (textStep o om d (sk ++ t :: rest)).1 = leftTrimmed om d ∧
+    (textStep o om d (sk ++ t :: rest)).2 = (endsWs (leftTrimmed om d) || (leftTrimmed om d).isEmpty) := by
+  have hn : nextStop (t :: rest) = some t := by simp [nextStop, hs]
+  rw [trailing_space_exact o om d sk (t :: rest) h, hn, ht]
+  by_cases h1 : (leftTrimmed om d).isEmpty = true
+  · have : leftTrimmed om d = [] := by simpa using h1
+    simp [this]
+  · by_cases h2 : endsWs (leftTrimmed om d) = true <;> simp [h1, h2]
+
+/-- nine comments between `price: ` and `10 EUR` -/
+def exNine : List XTok :=
+  [.startTag ['r'], .startTagClose, .text ['p', 'r', 'i', 'c', 'e', ':', ' ']] ++
+  List.replicate 9 (XTok.comment ['<', '!', '-', '-', 'c', '-', '-', '>']) ++
+  [.text ['1', '0', ' ', 'E', 'U', 'R'], .endTag ['<', '/', 'r', '>'] ['r']]
+
+/-- a processing instruction with seven pseudo-attributes (nine tokens) between `see ` and `below` -/
+def exPi7 : List XTok :=
+  [.startTag ['r'], .startTagClose, .text ['s', 'e', 'e', ' '], .startTagPI ['l']] ++
+  (List.range 7).map (fun i => XTok.attr [Char.ofNat (97 + i)] ['"', 'v', '"']) ++
+  [.startTagClosePI, .text ['b', 'e', 'l', 'o', 'w'], .endTag ['<', '/', 'r', '>'] ['r']]
+
+/-- non-vacuity, with nine and with forty skipped tokens: the hypotheses of `trailing_space_kept` hold, the space
+stays; in front of ` 10` (leading space) and of the end tag it goes -/
+example : (List.replicate 9 (XTok.comment [])).all skipped = true ∧
+    (List.replicate 40 (XTok.comment [])).all skipped = true ∧
+    ((XTok.startTagPI ['l'] :: (List.range 7).map (fun i => XTok.attr [Char.ofNat (97 + i)] ['"', 'v', '"'])) ++
+      [XTok.startTagClosePI]).all skipped = true ∧
+    skipped (.text ['1', '0']) = false ∧ trimAt false (some (.text ['1', '0'])) = false ∧
+    xmlMinify ⟨false⟩ exNine = "<r>price: 10 EUR</r>".toList ∧
+    xmlMinify ⟨false⟩ exPi7 =
+      "<r>see <?l a=\"v\" b=\"v\" c=\"v\" d=\"v\" e=\"v\" f=\"v\" g=\"v\"?>below</r>".toList ∧
+    (textStep ⟨false⟩ false ['x', ' '] (List.replicate 40 (XTok.comment []) ++ [.text ['y']])).1 = ['x', ' '] ∧
+    (textStep ⟨false⟩ false ['x', ' '] (List.replicate 40 (XTok.comment []) ++ [.text [' ', 'y']])).1 = ['x'] ∧
+    (textStep ⟨false⟩ false ['x', ' '] (List.replicate 40 (XTok.comment []) ++ [.endTag [] []])).1 = ['x'] ∧
+    (textStep ⟨true⟩ false ['x', ' '] (List.replicate 40 (XTok.comment []) ++ [.endTag [] []])).1 = ['x', ' '] := by
+  decide
+
+/-- **cdend_any_split** (full): however character data is cut into pieces (tokens), `escapeCDEnd` with the count
+of `]` threaded from piece to piece writes the same bytes as one call on the whole data, ends with the same
+count, and what is written — even directly behind `n` closing brackets already in the output — never
+contains `]]>`. -/
+theorem cdend_any_split (n : Nat) (ps : List (List Char)) :
+    (escPieces n ps).flatten = escCD n ps.flatten ∧ brPieces n ps = brAfter n ps.flatten ∧
+    hasCdEnd (List.replicate (min n 2) ']' ++ (escPieces n ps).flatten) = false := by
+  refine ⟨(escPieces_flatten ps n).1, (escPieces_flatten ps n).2, ?_⟩
+  rw [(escPieces_flatten ps n).1]
+  exact escCD_no_cdend n _
+
+/-- **cdend_count_carried** (full): a piece that consists of `]` only adds its length to the incoming count (it
+does not restart it); behind any other byte the count is the number of `]` that follow it. -/
+theorem cdend_count_carried (n k : Nat) :
+    brAfter n (List.replicate k ']') = n + k ∧ escCD n (List.replicate k ']') = List.replicate k ']' ∧
+    ∀ (c : Char) (a : List Char), c ≠ ']' → brAfter n (a ++ c :: List.replicate k ']') = k := by
+  refine ⟨brAfter_replicate k n, ?_, fun c a hc => brAfter_after c hc a k n⟩
+  induction k generalizing n with
+  | zero => rfl
+  | succ k ih => simp [List.replicate_succ, escCD, ih]
+
+/-- `a]`, `]`, `>b` — the `]]>` only exists across three pieces, the middle one is `]` alone -/
+example : escPieces 0 [['a', ']'], [']'], ['>', 'b']] = [['a', ']'], [']'], ['&', 'g', 't', ';', 'b']] ∧
+    escPieces 0 [[']'], [], [']'], [], ['>']] = [[']'], [], [']'], [], ['&', 'g', 't', ';']] ∧
+    brPieces 0 [['a', ']'], [']']] = 2 := by decide
+
+/-- **xml_no_cdend** (full, no hypothesis): for ALL token streams — any contents, any order, any initial
+`omitSpace` — no run of character data written by the loop (consecutive text tokens; this is how the bytes
+are read back) contains `]]>`. -/
+theorem xml_no_cdend (o : XmlOpts) (om : Bool) (ts : List XTok) : rawCdEnd (emit o om ts) = false := by
+  have h := rawfree_aux o ts.length ts (Nat.le_refl _) om 0 false [] rfl rfl
+  simp only [rawCdEnd, List.any_eq_false]
+  intro run hr
+  rw [← cdAuto_hasCdEnd]
+  simpa using h run hr
+
+/-- tokens of `<r><![CDATA[a]]]><![CDATA[]]]>&gt;b</r>` and of `<r>a]<!--c-->]<!--c-->&gt;b</r>` -/
+def exCarry : List XTok :=
+  [.startTag ['r'], .startTagClose, .cdata [] ['a', ']'], .cdata [] [']'], .text ['&', 'g', 't', ';', 'b'],
+   .endTag ['<', '/', 'r', '>'] ['r']]
+def exCarry2 : List XTok :=
+  [.startTag ['r'], .startTagClose, .text ['a', ']'], .comment [], .text [']'], .comment [],
+   .text ['&', 'g', 't', ';', 'b'], .endTag ['<', '/', 'r', '>'] ['r']]
+
+example : xmlMinify ⟨false⟩ exCarry = "<r>a]]&gt;b</r>".toList ∧ xmlMinify ⟨true⟩ exCarry2 = "<r>a]]&gt;b</r>".toList ∧
+    rawCdEnd [XTok.text ['a', ']'], .text [']'], .text ['>', 'b']] = true := by decide
 
 /-- **xml_nesting** (full): element nesting is preserved — if in the input every end tag closes the innermost
 open element under its name, `/>` closes the element just opened and nothing stays open, the same holds for the
